@@ -142,6 +142,32 @@ func decPool() []numv {
 	return out
 }
 
+// widePool: decimals around the machine word sizes a conversion could silently
+// wrap at (2^32, 2^63, 2^64, 2^65, 2^128 and 3*2^64), each with offsets that
+// land inside and outside the Integer range after a wrap.
+func widePool() []numv {
+	var out []numv
+	seen := map[string]bool{}
+	for _, base := range []*big.Int{new(big.Int).Lsh(big.NewInt(1), 32), new(big.Int).Lsh(big.NewInt(1), 63), new(big.Int).Lsh(big.NewInt(1), 64), new(big.Int).Lsh(big.NewInt(1), 65),
+		new(big.Int).Lsh(big.NewInt(3), 64), new(big.Int).Lsh(big.NewInt(1), 128)} {
+		for _, off := range []struct {
+			n    int64
+			frac string
+		}{{0, ".0"}, {5, ".5"}, {-7, ".25"}, {math.MaxInt32, ".0"}, {math.MinInt32, ".5"}, {-1, ".75"}} {
+			for _, sign := range []int64{1, -1} {
+				v := new(big.Int).Add(base, big.NewInt(off.n))
+				v.Mul(v, big.NewInt(sign))
+				str := v.String() + off.frac
+				if !seen[str] {
+					seen[str] = true
+					out = append(out, decNum(str))
+				}
+			}
+		}
+	}
+	return out
+}
+
 var (
 	minI32 = big.NewRat(math.MinInt32, 1)
 	maxI32 = big.NewRat(math.MaxInt32, 1)
@@ -445,7 +471,7 @@ func c08Unary(r *core.Rec, n numv) {
 func init() {
 	core.Register(&core.Check{
 		ID:   "C08",
-		Rule: "all ordered pairs of a structured Integer grid (boundary set, +-2^k and neighbours, small range) and of a Decimal pool (0..30 fractional digits, 40 significant digits, ties, int32 edges) x {+,-,*,/,div,mod}, mixed Integer/Decimal and FHIR integer/positiveInt/unsignedInt/decimal operands, unary minus, abs, floor, ceiling, truncate, round(p); every case evaluated through Compile/Evaluate and compared with math/big; distinct by construction (bijective enumeration)",
+		Rule: "all ordered pairs of a structured Integer grid (boundary set, +-2^k and neighbours, small range) and of a Decimal pool (0..30 fractional digits, 40 significant digits, ties, int32 edges; plus 72 decimals around the word sizes 2^32, 2^63, 2^64, 2^65, 3*2^64, 2^128) x {+,-,*,/,div,mod}, mixed Integer/Decimal and FHIR integer/positiveInt/unsignedInt/decimal operands, unary minus, abs, floor, ceiling, truncate, round(p); every case evaluated through Compile/Evaluate and compared with math/big; distinct by construction (bijective enumeration)",
 		Assumptions: []string{"'/' is accepted within 1e-16 of the exact quotient (truncation or rounding of the 17th place)", "round: half away from zero; half-up also accepted for negative ties", "unsignedInt/positiveInt values above 2^31-1 are outside FHIR's value domain and not supplied"},
 		Subs: func(tier string) []core.Sub {
 			ints := func() []numv { return intGrid(tier) }
@@ -460,11 +486,13 @@ func init() {
 				c08Pairs("int-x-int", "all ordered pairs of the Integer grid x 6 operators", ints, ints),
 				c08Pairs("dec-x-dec", "all ordered pairs of the Decimal pool x 6 operators", decPool, decPool),
 				c08Pairs("int-x-dec", "boundary Integers x Decimal pool", bnd, decPool),
+				c08Pairs("int-x-wide", "boundary Integers x decimals around 2^32, 2^63, 2^64, 2^65, 3*2^64, 2^128", bnd, widePool),
+				c08Pairs("wide-x-dec", "word-size decimals x Decimal pool", widePool, decPool),
 				c08Pairs("dec-x-int", "Decimal pool x boundary Integers", decPool, bnd),
 				c08Pairs("fhir-x-sys", "FHIR integer/positiveInt/unsignedInt/decimal elements x (boundary Integers + Decimal pool)", fhirNums, func() []numv { return append(bnd(), decPool()...) }),
 				c08Pairs("sys-x-fhir", "boundary Integers x FHIR elements", bnd, fhirNums),
 			}
-			un := append(append(intGrid(tier), decPool()...), fhirNums()...)
+			un := append(append(append(intGrid(tier), decPool()...), widePool()...), fhirNums()...)
 			subs = append(subs, core.Sub{Name: "unary", N: len(un), Note: "neg, abs, floor, ceiling, truncate, round(), round(0..5) on every grid/pool value", Run: func(i int, r *core.Rec) {
 				c08Unary(r, un[i])
 			}})
